@@ -1021,13 +1021,14 @@ class Rewriter:
             with open(fpath, encoding='utf-8') as fp:
                 fdata = fp.read()
 
-            # Generate line offsets numbers
-            m_lines = fdata.splitlines(True)
+            # Generate line offsets numbers. The lexer only counts '\n' as the
+            # end of a line, str.splitlines() would also split at e.g. '\f'.
+            m_lines = fdata.split('\n')
             offset = 0
             line_offsets = []
             for j in m_lines:
                 line_offsets += [offset]
-                offset += len(j)
+                offset += len(j) + 1
 
             files[T.cast(str, i['file'])] = {
                 'path': fpath,
